@@ -96,6 +96,7 @@ va_should_fail(void)
 		void *pcs[VA_FR];
 		va_walk(pcs);
 		va_site(pcs, va_failed_site, sizeof(va_failed_site));
+		vs_log("ALLOC-FAIL site=%s", va_failed_site);
 		va_failed++;
 		va_last_failed_idx = va_n;
 		vs_nontrivial();
@@ -105,6 +106,7 @@ va_should_fail(void)
 		void *pcs[VA_FR];
 		va_walk(pcs);
 		va_site(pcs, va_failed_site, sizeof(va_failed_site));
+		vs_log("ALLOC-FAIL site=%s", va_failed_site);
 		va_failed++;
 		va_last_failed_idx = va_n;
 		vs_nontrivial();
